@@ -12,6 +12,8 @@
 #include <string.h>
 #include <stdatomic.h>
 #include <limits.h>
+#include <stdlib.h>
+#include <sys/mman.h>
 
 /* weak: present in TSan builds only */
 extern void __tsan_acquire(void *) __attribute__((weak));
@@ -38,6 +40,7 @@ struct sthread {
 	void *arg;
 	int joined;
 	int routine;
+	unsigned epoch;
 	int64_t prio;
 	uint64_t delayed_until;
 };
@@ -46,7 +49,7 @@ static struct {
 	int active;
 	struct sim_sched_cfg cfg;
 	struct prng rng;
-	struct sthread t[MAXT];
+	struct sthread *t;	/* a fresh array per sim_sched_begin: a thread leaked by an earlier run stays parked on its own words for ever */
 	int nt;
 	int current;
 	uint64_t step;
@@ -65,14 +68,21 @@ static struct {
 } G;
 
 static __thread int tls_tid = -1;
+static atomic_uint sim_epoch;		/* incremented by every sim_sched_begin */
+static __thread unsigned tls_epoch;	/* epoch in which this thread was created */
 
 static void futex_wait(atomic_int *a, int v) { syscall(SYS_futex, a, FUTEX_WAIT_PRIVATE, v, NULL, NULL, 0); }
 static void futex_wake(atomic_int *a) { syscall(SYS_futex, a, FUTEX_WAKE_PRIVATE, 1, NULL, NULL, 0); }
 
+static atomic_int never;
 static void park(struct sthread *t)
 {
 	while (atomic_load(&t->go) == 0)
 		futex_wait(&t->go, 0);
+	if (tls_epoch != atomic_load(&sim_epoch)) {
+		/* defence in depth: a thread of an earlier run must never run again */
+		for (;;) futex_wait(&never, 0);
+	}
 	atomic_store(&t->go, 0);
 }
 static void wake(struct sthread *t)
@@ -364,6 +374,7 @@ static void *tramp(void *v)
 {
 	struct sthread *t = v;
 	tls_tid = (int)(t - G.t);
+	tls_epoch = t->epoch;
 	park(t);
 	void *r = t->fn(t->arg);
 	thread_exit_self();
@@ -378,6 +389,7 @@ int sim_pthread_create(pthread_t *th, const pthread_attr_t *a, void *(*fn)(void 
 	struct sthread *t = &G.t[id];
 	memset(t, 0, sizeof *t);
 	t->state = ST_RUN; t->fn = fn; t->arg = arg;
+	t->epoch = atomic_load(&sim_epoch);
 	t->prio = (int64_t)(prng_next(&G.rng) >> 2);
 	t->routine = -1;
 	for (int r = 0; r < G.nroutines; r++) if (G.st.routine[r] == (void *)fn) t->routine = r;
@@ -415,11 +427,19 @@ int sim_pthread_join(pthread_t th, void **ret)
 	return pthread_join(th, ret);
 }
 
+static int prev_unjoined;
 void sim_sched_begin(const struct sim_sched_cfg *cfg)
 {
 	sim_sched_fatal_fn f = G.fatal;
 	memset(&G, 0, sizeof G);
 	G.fatal = f;
+	/* A fresh thread table per run, mapped and never unmapped (a few KB): a thread leaked by an earlier run
+	 * stays parked on words that no later run can touch, so it can neither be woken nor steal a wake-up.
+	 * (mmap, not malloc: the leak check's heap accounting must not see the harness.) */
+	size_t sz = (sizeof(struct sthread) * MAXT + 4095) & ~(size_t)4095;
+	G.t = mmap(NULL, sz, PROT_READ | PROT_WRITE, MAP_PRIVATE | MAP_ANONYMOUS, -1, 0);
+	if (G.t == MAP_FAILED) _exit(97);
+	tls_epoch = atomic_fetch_add(&sim_epoch, 1) + 1;
 	G.cfg = *cfg;
 	prng_seed(&G.rng, cfg->seed, 0x5c4ed, 7);
 	G.nt = 1;
@@ -446,6 +466,7 @@ void sim_sched_end(struct sim_sched_stats *out)
 	for (int i = 1; i < G.nt; i++)
 		if (G.t[i].state != ST_EXITED || !G.t[i].joined) unjoined++;
 	G.st.unjoined = unjoined;
+	prev_unjoined = unjoined;
 	if (out) *out = G.st;
 	G.active = 0;
 	tls_tid = -1;
